@@ -208,6 +208,15 @@ int encode_operands(struct instr *instrc) {
     }
     instrc->rd_offset = instrc->opd[0].reg & VALUE_MASK;
   }
+  // movzx: the opcode (0f b6 / 0f b7) follows the width of the source, the
+  // operand-size prefix and REX.W the width of the destination only
+  if (NAME(instrc->key, movzx)) {
+    bool word_source = instrc->mem_disp
+                           ? instrc->keyword.is_word
+                           : (instrc->opd[1].reg & BIT_MASK) == BIT_16;
+    instrc->op_offset = word_source ? 1 : 0;
+    instrc->keyword.is_word = false;
+  }
   // set 'byte' keyword
   if (instrc->mem_disp)
     auto_set_byte(instrc);
